@@ -37,7 +37,7 @@ var (
 )
 
 func TestMain(m *testing.M) {
-	rec.Rule("cases = histories of 1-24 /sign requests (valid, unknown key, key of another role, bad signature type, bad digest, body the signer rejects) issued by 1-16 concurrent clients to the real daemon, x audit sink state (file writable, file in a missing directory, a directory in place of the file, /dev/full, AMQP broker refusing connections, file + refusing broker); invariants: the multiset of 2xx responses equals the multiset of audit records (matched by a unique file name per request); a record is already in the file when its response arrives; every line is exactly one JSON object naming the resolved key, signature type, digest, certificate fingerprint, client name, client address and file name of that request; with any sink failing no 2xx is returned; standalone: exit status 0 iff exactly one new record; non-trivial = history with a sink fault or >= 2 overlapping signers; distinct = (sink state, request list, concurrency)")
+	rec.Rule("cases = histories of 1-24 /sign requests (valid, unknown key, key of another role, bad signature type, bad digest, body the signer rejects) issued by 1-16 concurrent clients to the real daemon, x audit sink state (file writable, file in a missing directory, a directory in place of the file, /dev/full, AMQP broker refusing connections, file + refusing broker); invariants: the multiset of 2xx responses equals the multiset of audit records (matched by a unique file name per request); a record is already in the file when its response arrives; every line is exactly one JSON object naming the resolved key, signature type, digest, certificate fingerprint, client name, client address and file name of that request; with any sink failing no 2xx is returned; standalone: exit status 0 iff exactly one new record; PGP signatures on keys that have both kinds of certificate (record names the PGP fingerprint); non-trivial = history with a sink fault or >= 2 overlapping signers; distinct = (sink state, request list, concurrency)")
 	rec.Assume("successful AMQP delivery cannot be exercised offline (no broker); only the refusal path of that sink is")
 	var err error
 	workDir, err = os.MkdirTemp("", "c06-")
